@@ -11,7 +11,7 @@ for f in sorted(glob.glob('/verif/seeded/*/meta.json')):
     for c, r in m['checks_on_patched_repo'].items():
         if r['exit'] == 1:
             sigs += r['signatures'][:2]
-    rows.append((m['name'], m['property'], 'yes' if ok else 'NO', det, m.get('needs', ''), '; '.join(s[:90] for s in sigs[:2])))
+    rows.append((m['name'], m['property'], 'yes' if ok else 'NO', det, m.get('needs', '') + (' — FIRST RUN MISSED by ' + m['first_run_missed_by'] if m.get('first_run_missed_by') else ''), '; '.join(s[:90] for s in sigs[:2])))
 out = ["# Seeded property-breaking changes\n",
        "Each directory holds `patch.diff` (a change to truora/minidyn written by a sub-agent that saw only the property text and a scratch worktree), the demonstration test, the agent's `SEED_NOTES.md` and `meta.json` (what was run: the repository's suite with the patch, the demonstration with and without it, and the quick tier of the checks against /repo with the patch applied and removed again). None of these changes is committed to /repo.\n",
        "| seed | property | confirmed (suite passes, demo fails/passes) | reported by | what it needs to manifest | first signatures |",
